@@ -5,5 +5,8 @@ def run(pid, tier, replay):
     from . import p_lr
     if pid in p_lr.P:
         return p_lr.main(pid, tier, replay)
+    if pid == "C19":
+        from . import p_nlc
+        return p_nlc.main(pid, tier, replay)
     print("unknown or unclaimed property %s" % pid)
     return 2
